@@ -19,13 +19,16 @@ from props import c18_spec as S
 
 PID = 'C18'
 COQ_DIRS = ['common', 'C18']
-TARGETS = ['C18/Props.vo', 'C18/Corr.vo']
-MODEL_TARGETS = ['C18/Corr.vo']
+TARGETS = ['C18/Props.vo', 'C18/Corr.vo', 'C18/CorrHeap.vo']
+MODEL_TARGETS = ['C18/Corr.vo', 'C18/CorrHeap.vo']
 PROPS_FILE = 'C18/Props.v'
 PROPS_MODULE = 'QV.C18.Props'
-CORR_IMPORTS = ['QV.C18.Model', 'QV.C18.Spec', 'QV.C18.Corr']
-CHECK_CORR = 'check_corr'
-CHECK_SPEC = 'check_spec'
+CORR_IMPORTS = ['QV.C18.Model', 'QV.C18.Spec', 'QV.C18.Corr', 'QV.C18.Heap', 'QV.C18.CorrHeap']
+# round 6: a case also carries the heap events (new Loop objects, attached windows, which object a registration was given);
+# check_corr_h = Corr.check_corr && CorrHeap.check_heap (the heap model's _take_measurements predicts the registered windows)
+CASE_TYPE = 'hcase'
+CHECK_CORR = 'check_corr_h'
+CHECK_SPEC = 'check_spec_h'
 SHARD = 40
 PRELUDE = ('Notation SC := Build_sch. Notation MK := Build_mask. Notation PG := Build_prog. Notation AE := Build_awg_entry.\n'
            'Notation AS := Build_awg_st. Notation DS := Build_dac_st. Notation RG := Build_reg. Notation OB := Build_obs.\n')
@@ -57,6 +60,9 @@ RULE = ('histories of set_channel / set_measurement / rm_channel / register_prog
         'deterministic (update_parameters / arm / remove after the generator of a used id moved or was un-wired) and the '
         'acquisition-side twin "the only mask of a recorded device is moved away" (device leaves known_dacs while it holds '
         'the windows).  '
+        'Round 6: every case carries its heap events (new Loop object with the windows it was built with, windows attached '
+        'later, the object handed to each register_program); Coq replays them on Heap.v and compares what _take_measurements '
+        'must return with the twin\'s windows and with the record of the real setup (check_corr_h = check_corr && check_heap).  '
         'Known finding vs VIOLATION is decided in coqc: known iff Corr.check_plain rejects AND Corr.check_framed accepts.  Non-trivial = at least one registration returned '
         'normally and one later operation touched devices; distinct = canonical JSON of the case.')
 TRUSTED = [
@@ -74,9 +80,14 @@ TRUSTED = [
     'recorded outcome (winner of several names wired to one output / mask), upload order is observed by wrapping upload',
     '"the program\'s own windows" = Loop.get_measurement_windows() (property C02) of a structurally equal twin object '
     'that is never handed to the setup (+ whatever the harness attached to both later); explicit `measurements=` if given.  '
-    'In the Coq model they are an INPUT of register_program (p_meas): the setup\'s per-object memory of what it took out of a '
-    'Loop (_take_measurements, repair bc650d0) is not modelled, so "the registered windows are the object\'s own windows" is '
-    'tested (same-object, attach, dead-object / id-reuse families), not proved',
+    'In Model.v they are an INPUT of register_program (p_meas).  Round 6: Heap.v models the setup\'s per-object memory of what '
+    'it took out of a Loop (_take_measurements, repair bc650d0) on a heap with object death and address reuse; '
+    'C18_take_own_windows / C18_register_own_windows prove that p_meas is everything ever attached to the object, for all '
+    'histories.  Trusted there: a Loop\'s attached windows are a dictionary name -> (begins, lengths) that grows by '
+    'appending (root-level add_measurements on a leaf; the windows added are read off the twin in absolute terms), CPython '
+    'never gives two live objects one id(), a weak reference to a dead object returns None; CorrHeap.check_heap compares the '
+    'heap model\'s prediction with the twin and with the record the real setup holds after every registration that took '
+    'the measurements out of the object (object deaths are not reported to Coq: the theorem makes the result independent of them)',
     'Spec.v / Corr.check_spec share with Model.v only data types, association-list helpers (lookup, has_key, keys, '
     'remove_key, get_set, memN, nodupN), known_awgs / known_dacs (= the devices occurring in the wiring maps), py_index '
     '(Python negative indexing) and the empty initial state; check_spec never calls a model operation (step, '
@@ -229,6 +240,8 @@ def _run(case):
     chpool = {}          # (awg, index, marker, trafo) -> hardware channel object reused across calls (case['chpool'])
     cblog = []
     upload_log = []
+    oid_of = {}          # id(Loop) -> identity of the object in the Coq heap model (round 6; never reused)
+    n_objs = [0]
     dead_ids = []        # ids of `ephemeral` Loop objects (not kept alive by the harness: they die as soon as the setup
     reused = [0]         # and the devices drop them); `reuse`: the next object is allocated at such an address if possible
 
@@ -452,6 +465,7 @@ def _run(case):
                 setup.rm_channel(IDS[op['id']])
             elif k == 'register':
                 pd = op['prog']
+                heap_ev = []
                 if pd.get('obj') is not None and pd['obj'] in pool:
                     program = pool[pd['obj']]          # the very same Loop object again (register_program has taken
                     if progs[id(program)] != pd['tag']:   # the measurements out of it)
@@ -482,14 +496,26 @@ def _run(case):
                     # "the program's own windows" = everything that was ever attached to this object.  They are read off a
                     # twin that is never handed to the setup (the setup strips the object it is given).
                     twins[id(program)] = _mk_program(dict(pd, _ids=IDS))
+                    n_objs[0] += 1
+                    oid_of[id(program)] = n_objs[0]
+                    heap_ev.append(['alloc', n_objs[0]])
+                    for n, v in twins[id(program)].get_measurement_windows().items():
+                        heap_ev.append(['attach', n_objs[0], int(n[1:])] + _wins(v))
                     if pd.get('obj') is not None:
                         pool[pd['obj']] = program
                 if op.get('attach'):
                     # the user attaches further measurements to an object (possibly one the setup has stripped before)
                     if pd.get('shape', 'leaf') != 'leaf' or pd.get('rep', 1) != 1:
                         raise RuntimeError('generator: attach only for a leaf program played once (window order)')
+                    before = {n: len(v[0]) for n, v in twins[id(program)].get_measurement_windows().items()}
                     for target in (program, twins[id(program)]):
                         target.add_measurements([('m%d' % n, b, l) for n, b, l in op['attach']])
+                    # heap event = the windows that were added in absolute terms (Loop.add_measurements offsets them by the
+                    # body duration): what the twin has now beyond what it had before
+                    after = twins[id(program)].get_measurement_windows()
+                    for n in dict.fromkeys('m%d' % a[0] for a in op['attach']):
+                        k = before.get(n, 0)
+                        heap_ev.append(['attach', oid_of[id(program)], int(n[1:])] + _wins((after[n][0][k:], after[n][1][k:])))
                 first = next(program.get_depth_first_iterator())
                 chan_order = [id_index(c) for c in first.waveform.defined_channels]
                 kwargs = {}
@@ -524,7 +550,8 @@ def _run(case):
                             if pos is not None and slot_trafo.setdefault((ai, mk, pos), tr) != tr:
                                 raise _OrderAmbiguous()
                 del upload_log[:]
-                hint = {'chan_order': chan_order, 'meas': own, 'awg_order': None}
+                hint = {'chan_order': chan_order, 'meas': own, 'awg_order': None,
+                        'heap': {'ev': heap_ev, 'who': None if op.get('explicit') is not None else oid_of[id(program)]}}
                 try:
                     setup.register_program('p%d' % op['name'], program, **kwargs)
                 finally:
@@ -667,7 +694,27 @@ def g_op(case, op, st):
     raise ValueError(k)
 
 
+def g_hop(e):
+    if e[0] == 'alloc':
+        return '(HAlloc %s %s)' % (gN(e[1]), gN(e[1]))
+    return '(HAttach %s (%s, %s))' % (gN(e[1]), gN(e[2]), g_wins(e[3:]))
+
+
 def to_coq(case, obs):
+    """hcase: the plain case + per call the heap events before it and the object handed to register_program"""
+    if 'crash' in obs or 'hang' in obs:
+        return '(HCase CCrash [])'
+    ev = []
+    for st in obs['steps']:
+        h = (st.get('hint') or {}).get('heap')
+        if h is None:
+            ev.append('([], None)')
+        else:
+            ev.append('(%s, %s)' % (glist(g_hop, h['ev']), g_on(h['who'])))
+    return '(HCase %s %s)' % (to_coq_plain(case, obs), glist(lambda x: x, ev))
+
+
+def to_coq_plain(case, obs):
     if 'crash' in obs or 'hang' in obs:
         return 'CCrash'
     steps = glist(lambda os_: '(%s, %s)' % (g_op(case, os_[0], os_[1]), g_obs(case, os_[1])),
@@ -1625,7 +1672,7 @@ def _coq_eval(pairs):
         return []
     wd = tempfile.mkdtemp(prefix='c18_framed_', dir=vlib.BUILD)
     try:
-        terms = [to_coq(c, o) for c, o in pairs]
+        terms = [to_coq_plain(c, o) for c, o in pairs]
         res = vlib.run_coq_cases(wd, CORR_IMPORTS, ['check_framed', 'check_plain'], terms, shard=SHARD, prelude=PRELUDE)
         bad_f, bad_p = set(res['check_framed']), set(res['check_plain'])
         return [(i not in bad_p, i not in bad_f) for i in range(len(pairs))]
@@ -1744,7 +1791,12 @@ MANIFEST = {
                   'the real objects after every call, with program objects and channel objects reused across calls; a '
                   'program\'s own windows are read off a twin object that is never handed to the setup (they are an input of '
                   'the model: that the setup registers the OBJECT\'s own windows - its per-object memory of taken measurements - '
-                  'is tested only).  Round 5: under the guard arm_program leaves EVERY generator (wired or not) armed with the '
+                  'was tested only until round 5).  Round 6: Heap.v models that memory (_take_measurements: id()-keyed table, weak '
+                  'reference + identity test) on a heap with object death and address reuse; for every history of '
+                  'allocations, attachments, takes and deaths it returns everything ever attached to the very object '
+                  '(C18_take_own_windows), and in the machine combined with the routing model every registration that '
+                  'reaches it is Model.register_program on the object\'s own windows and records them '
+                  '(C18_register_own_windows); CorrHeap.check_heap judges the real setup\'s records against this model in coqc.  Round 5: under the guard arm_program leaves EVERY generator (wired or not) armed with the '
                   'name iff the program uses it (C18_arm_awg_exact); without the guard "disarms all other generators" is proved '
                   'for wired generators only (un-wired ones keep their state: part of the known finding).',
     'level_note': 'Trusted: Coq kernel, harness, DummyAWG/DummyDAC as stand-ins for real drivers (set_volatile_parameters '
